@@ -31,6 +31,7 @@ var verifErrStub = errors.New("stub: codec error")
 
 type verifStubState struct {
 	installed bool
+	ndErr     bool // a stub failed by its own nondeterministic choice
 	// encode side
 	emCalls   int
 	emArg     interface{} // last value that reached the alias-struct level
@@ -84,6 +85,15 @@ func verifLabelOf(v interface{}) string {
 		}
 	}
 	return ""
+}
+
+// verifStubFail: the stub's nondeterministic "the library reports an error" choice
+func verifStubFail(name string) bool {
+	if ndBool(name) {
+		verifStub.ndErr = true
+		return true
+	}
+	return false
 }
 
 func verifInstallStubs() {
@@ -145,20 +155,20 @@ func (verifDM) Unmarshal(data []byte, v interface{}) error {
 	}
 	switch p := v.(type) {
 	case *p1Claims:
-		if verifStub.p1 == nil || ndBool("dm.err.claims") {
+		if verifStub.p1 == nil || verifStubFail("dm.err.claims") {
 			return verifErrStub
 		}
 		verifFillP1(p, verifStub.p1.c)
 		return nil
 	case *p2Claims:
-		if verifStub.p2 == nil || ndBool("dm.err.claims") {
+		if verifStub.p2 == nil || verifStubFail("dm.err.claims") {
 			return verifErrStub
 		}
 		verifFillP2(p, verifStub.p2.c)
 		return nil
 	}
 	// the anonymous selector struct { Profile string `cbor:"265,keyasint"` }
-	if len(data) == 0 || ndBool("dm.err.selector") {
+	if len(data) == 0 || verifStubFail("dm.err.selector") {
 		return verifErrStub
 	}
 	rv := reflect.ValueOf(v).Elem()
@@ -226,7 +236,7 @@ func verifJSONMarshal(v interface{}) ([]byte, error) {
 	}
 	verifStub.jsonCalls++
 	verifStub.jsonArg = v
-	if ndBool("json.err") {
+	if verifStubFail("json.err") {
 		return nil, verifErrStub
 	}
 	out := ndBytes("json.out")
@@ -243,19 +253,19 @@ func verifJSONUnmarshal(data []byte, v interface{}) error {
 	verifStub.dsts = append(verifStub.dsts, v)
 	switch p := v.(type) {
 	case *map[string]interface{}:
-		if verifStub.jsonMap == nil || ndBool("json.err.map") {
+		if verifStub.jsonMap == nil || verifStubFail("json.err.map") {
 			return verifErrStub
 		}
 		*p = verifStub.jsonMap
 		return nil
 	case *p1Claims:
-		if verifStub.p1 == nil || ndBool("json.err.claims") {
+		if verifStub.p1 == nil || verifStubFail("json.err.claims") {
 			return verifErrStub
 		}
 		verifFillP1(p, verifStub.p1.c)
 		return nil
 	case *p2Claims:
-		if verifStub.p2 == nil || ndBool("json.err.claims") {
+		if verifStub.p2 == nil || verifStubFail("json.err.claims") {
 			return verifErrStub
 		}
 		verifFillP2(p, verifStub.p2.c)
